@@ -71,6 +71,23 @@ def gen_two_resonance_case(rng, oid):
     return m, par
 
 
+def gen_sub_azimuth_case(rng, oid):
+    """an azimuthal object of which ONE azimuth (not the first) was analysed on its own over a restricted range; the judged call then rejects over the range the
+    other azimuths still hold, with find_peaks_kwargs={}: every azimuth must be brought to the requested range by comparing with ITS OWN stored range"""
+    freq = hvgen.gen_freq(rng, int(rng.integers(60, 120)))
+    naz = int(rng.integers(2, 5))
+    nw = int(rng.integers(5, 12))
+    azs = sorted(float(a) for a in rng.choice(np.arange(0, 180, 5), naz, replace=False))
+    m = Mirror.az(oid, freq, [hvgen.gen_curve_set(rng, freq, nw) for _ in range(naz)], azs)
+    k = int(rng.integers(1, naz))
+    cut = float(freq[int(rng.integers(len(freq) // 3, 2 * len(freq) // 3))])
+    r1 = [(cut, None), (None, cut)][int(rng.integers(0, 2))]
+    par0 = dict(n=float(rng.choice([1.5, 2.0, 2.5])), maxit=int(rng.choice([2, 50])), dfn=str(rng.choice(hvgen.DISTS)), dmc=str(rng.choice(hvgen.DISTS)))
+    m.pre_ops = [["subfdwra", par0, list(r1), True, k]] if rng.random() < 0.6 else [["subupdate", k, list(r1), bool(rng.random() < 0.5)]]
+    par = dict(par0, n=float(rng.choice([1.5, 2.0, 3.0])), range=(None, None), kw=True)
+    return m, par
+
+
 def gen_exact_zero_case(rng, oid):
     """integer frequencies, triangular curves peaking on integer frequencies, normal distributions: |mean fn - mean-curve peak| can be EXACTLY zero
     while windows still lie outside mean +- n std -- the published algorithm removes them before it looks at the stopping rule"""
@@ -94,6 +111,8 @@ def gen_pre_history(rng, m):
     with those of the second call), a peak update or an analysis of ONE azimuth on its own; ops are JSON-able lists"""
     ops = []
     u = rng.random()
+    if m.kind == "A" and len(m.rows_per_az) >= 2 and rng.random() < 0.5:
+        u = 0.75 + 0.25 * u          # azimuthal objects: half of the histories touch ONE azimuth on its own
     par0 = dict(n=float(rng.choice([1.5, 2.0, 2.5, 3.0])), maxit=int(rng.choice([1, 2, 50])), dfn=str(rng.choice(hvgen.DISTS)), dmc=str(rng.choice(hvgen.DISTS)))
     if u < 0.45:
         ops.append(["fdwra", par0, list(hvgen.gen_range(rng, m.freq)) if rng.random() < 0.6 else [None, None], False, None])
@@ -171,12 +190,12 @@ def run(ctx):
         kind = "T" if i % 3 != 2 else "A"
         if i % 40 == 7:
             m, par = gen_exact_zero_case(rng, i + 1)
-        elif i % 20 == 11 and i < n:
-            m, par = gen_two_resonance_case(rng, i + 1)
+        elif i % 20 in (11, 17) and i < n:
+            m, par = gen_two_resonance_case(rng, i + 1) if i % 20 == 11 else gen_sub_azimuth_case(rng, i + 1)
             if not apply_pre_history(m, m.pre_ops):
                 ctx.near_tie_skipped += 1
                 continue
-            ctx.count("pre_history:two-resonances")
+            ctx.count("pre_history:" + ("two-resonances" if i % 20 == 11 else "one-azimuth-on-its-own"))
             ret, dbg = run_one(m, par)
             idx = len(lines) + len(m.lines) - 1
             lines += m.lines
@@ -188,7 +207,7 @@ def run(ctx):
         # a third of the generic cases: the object has a HISTORY (an earlier rejection with another range, a peak update, an azimuth analysed on its own);
         # half of those pass find_peaks_kwargs={} to the judged call (the entry peak search may then be skipped per azimuth, by that azimuth's own stored range)
         m.pre_ops = []
-        if i < n and i % 40 != 7 and rng.random() < 0.34:
+        if i < n and i % 40 != 7 and rng.random() < (0.6 if m.kind == "A" else 0.34):
             m.pre_ops = gen_pre_history(rng, m)
             if not apply_pre_history(m, m.pre_ops):
                 ctx.near_tie_skipped += 1
